@@ -36,6 +36,8 @@ def run(tier):
     c12.check_leaks(ck)
     from .. import cfgstream
     ncfg, cstats, csizes, cbad = cfgstream.run(ck, 300 if tier == "quick" else 20000, ck.seed + 2)
+    from .. import memstream
+    nmem, mstats, mbad = memstream.run(ck, 240 if tier == "quick" else 8000, ck.seed + 3)
     if not proof_ok:
         ck.violation("tie-broken:proof", "Props/C01.v no longer checks against the regenerated tables", getattr(ck, "proof_output", "")[-2500:])
     ck.coverage.update(
